@@ -20,7 +20,7 @@ CLAIMED = {
    note="The oracle depends on the generator's own notion of where a complete command ends (POSIX grammar); comment-only lines between commands are not generated because the property does not pin them. Sampling.", ref="DESIGN.md §5 C07"),
  "C08": dict(cat="exploration", tech="deterministic simulation: here-document push/pop pipeline under extreme and seeded schedules, AST redirections vs generator ground truth with an independent unparser",
    text="Generated commands with here-documents at every redirection site (compound commands, pipelines, lists, $( ), several per line, << and <<-, all delimiter quotings, adversarial body lines) are parsed under parser-first, lexer-first and seeded schedules; the here-document Redir nodes in source order must match the generator's list one to one: delimiter after quote removal, body byte for byte (own unparser), expansion nodes iff the delimiter was unquoted, tab-indented <<- delimiter recognised, identical under every schedule.",
-   note="Bodies are limited to forms the harness's unparser can reproduce exactly (no backslash-newline in expanding bodies); sampling.", ref="DESIGN.md §5 C08"),
+   note="Bodies are limited to forms the harness's unparser and its independent expansion scanner cover (simple $x/${x}/$( )/$(( ))/backquote forms, backslash escapes and continuations); sampling.", ref="DESIGN.md §5 C08"),
  "C10": dict(cat="fault_enumeration", tech="deterministic simulation with fault injection: complete single-fault enumeration over reader positions x fault kinds (persistent, transient, data+err, zero-progress, short reads) x schedules",
    text="For every (program, reader variant) the complete set of single-fault positions is enumerated — every rune start for the RuneScanner, every byte offset for the io.Reader behind bufio, with persistent, transient, data+err, chunked and zero-progress behaviours — and each is run under both extreme schedules and a seeded one. Whenever the failure was delivered to the parser the returned error must be non-nil and errors.Is the injected error (io.ErrNoProgress for zero-progress), and the call must return.",
    note="Programs and schedules are sampled; the single-fault space per program is enumerated completely. For io.Reader sources the obligation is restricted to faults inside the extent the fault-free run consumed (bufio read-ahead may swallow later faults unseen).", ref="DESIGN.md §5 C10"),
